@@ -284,7 +284,7 @@ Section Main.
   Proof.
     induction items as [|it rest IH]; intros q tx q' outs e H Hsd E; cbn [read_walk] in E.
     - injection E as <- <- _. cbn. rewrite Z.add_0_r. split; [exact H|]. intros F. congruence.
-    - destruct it as [r|].
+    - destruct it as [r| |].
       + destruct (step cfg q (IReply servers on_tcp this_conn r)) as [[ok q1] o1] eqn:Es.
         destruct (read_walk cfg servers on_tcp this_conn q1 rest) as [[q2 o2] e2] eqn:Ew.
         injection E as <- <- _.
@@ -295,6 +295,12 @@ Section Main.
         * destruct (step cfg q (IConnClosed servers ARES_EBADRESP)) as [[ok q1] o1] eqn:Es.
           injection E as <- <- _.
           destruct (step_good q tx (IConnClosed servers ARES_EBADRESP) ok q1 o1 H Hs Es) as [H1 _]. split; [exact H1|].
+          unfold Retry_inv.Inv in H1. destruct H1 as (_ & _ & _ & _ & _ & _ & H7 & _). exact H7.
+        * injection E as <- <- _. cbn. rewrite Z.add_0_r. split; [exact H|]. congruence.
+      + destruct (this_conn && match q_conn q with Some c => Bool.eqb c on_tcp | None => false end).
+        * destruct (step cfg q (IConnClosed servers ARES_ECONNREFUSED)) as [[ok q1] o1] eqn:Es.
+          injection E as <- <- _.
+          destruct (step_good q tx (IConnClosed servers ARES_ECONNREFUSED) ok q1 o1 H Hs Es) as [H1 _]. split; [exact H1|].
           unfold Retry_inv.Inv in H1. destruct H1 as (_ & _ & _ & _ & _ & _ & H7 & _). exact H7.
         * injection E as <- <- _. cbn. rewrite Z.add_0_r. split; [exact H|]. congruence.
   Qed.
